@@ -330,23 +330,17 @@ func (fw *FileWriter) flushLocked() error {
 	// Update file header on disk so EntryCount/BlockCount are always current.
 	// This avoids stale 0/0 values when the file is read before Close()/Sync().
 	// Cost: 2 seeks + 64B write per block, no fsync.
+	return fw.writeFileHeaderLocked()
+}
+
+// writeFileHeaderLocked rewrites the 64-byte file header in place with the
+// current counts. It writes at offset 0 without moving the file position, so a
+// failure here can never make the next block land anywhere but at endPos.
+func (fw *FileWriter) writeFileHeaderLocked() error {
 	fw.header.BlockCount = fw.blockCount
 	fw.header.EntryCount = fw.entryCount
-	currentPos, err := fw.file.Seek(0, io.SeekCurrent)
-	if err != nil {
-		return err
-	}
-	if _, err := fw.file.Seek(0, io.SeekStart); err != nil {
-		return err
-	}
-	if _, err := fw.file.Write(fw.header.Serialize()); err != nil {
-		return err
-	}
-	if _, err := fw.file.Seek(currentPos, io.SeekStart); err != nil {
-		return err
-	}
-
-	return nil
+	_, err := fw.file.WriteAt(fw.header.Serialize(), 0)
+	return err
 }
 
 // Sync flushes the buffer and syncs to disk
@@ -364,20 +358,7 @@ func (fw *FileWriter) Sync() error {
 	}
 
 	// Update header with current counts
-	fw.header.BlockCount = fw.blockCount
-	fw.header.EntryCount = fw.entryCount
-
-	// Seek to beginning and update header
-	if _, err := fw.file.Seek(0, io.SeekStart); err != nil {
-		return err
-	}
-
-	if _, err := fw.file.Write(fw.header.Serialize()); err != nil {
-		return err
-	}
-
-	// Seek back to end
-	if _, err := fw.file.Seek(0, io.SeekEnd); err != nil {
+	if err := fw.writeFileHeaderLocked(); err != nil {
 		return err
 	}
 
@@ -401,16 +382,7 @@ func (fw *FileWriter) Close() error {
 	}
 
 	// Update header
-	fw.header.BlockCount = fw.blockCount
-	fw.header.EntryCount = fw.entryCount
-
-	// Seek to beginning and update header
-	if _, err := fw.file.Seek(0, io.SeekStart); err != nil {
-		fw.file.Close()
-		return err
-	}
-
-	if _, err := fw.file.Write(fw.header.Serialize()); err != nil {
+	if err := fw.writeFileHeaderLocked(); err != nil {
 		fw.file.Close()
 		return err
 	}
